@@ -91,6 +91,20 @@ CHECKS = {
             "exercised under every non-empty mask and judged against it.",
             "'departs from greedy with probability at most epsilon' for 0 < epsilon < 1 is statistical: only support and the extremes are decided.",
             "DESIGN.md section 4 C16"),
+    "C07": ("TLA+ Losses spec (exact integer arithmetic): TLC exhaustive on flag/table cases + real dqn_loss/sac_train cases judged by TLC",
+            "Losses.tla states the TD targets declaratively (r + gamma (1 - terminated) V') and in implementation shape; TLC proves "
+            "them equal on all flag combinations and checks the Double-DQN structure; the real DQN.dqn_loss / dqn_loss_grad (loss and "
+            "the whole gradient table = semi-gradient of the online network only) and the real SAC.sac_train (q_loss value, actor "
+            "gating, critic independence, untouched targets) are evaluated on tabular / constant networks and judged case by case.",
+            "tabular / constant networks; exact on dyadic inputs (tolerance 2e-5); arbitrary real parameters not decided.",
+            "DESIGN.md section 4 C07"),
+    "C08": ("TLA+ Losses spec (exact integer arithmetic): TLC exhaustive on ratio/advantage cases + real ppo/a2c/reinforce losses judged by TLC",
+            "Losses.tla states the published objectives (PPO clipped surrogate with PPO2 value clipping, A2C, REINFORCE); TLC checks "
+            "the zero-gradient-outside-clip and on-policy identities exhaustively; the real static loss functions and their gradients "
+            "are evaluated on tabular policies for every (ratio, advantage) combination, flags and coefficients and judged "
+            "component by component; PPO.train_batch decides the optimiser / global-norm-clipping clause.",
+            "ratios realised through exp(ln r): tolerance 2e-5; off-policy approx_kl value and irrational std not decided.",
+            "DESIGN.md section 4 C08"),
 }
 
 PENDING_REASON = "check not built yet in this round (planned: see DESIGN.md section 4); not claimed until its machinery exists"
